@@ -56,7 +56,9 @@ MemO == IsEv("memo") /\ E.r = (IF Contains(S, str[E.p]) THEN 1 ELSE 0) /\ Upd(S)
 TailFrom(n) == SubSeq(S, (IF n < Len(S) THEN n ELSE Len(S)) + 1, Len(S))
 ConcatIn == IsEv("concatin") /\ Upd(S \o TailFrom(E.n))        \* the argument points into the target's own characters
 AssignIn == IsEv("assignin") /\ Upd(TailFrom(E.n))
-Resize == IsEv("resize") /\ Upd(Truncate(S, E.n))
+Resize == IsEv("resize") /\ E.r = 0 /\ Upd(Truncate(S, E.n))        \* (room for n characters and their terminator: the byte at n is NUL)
+PrintSelf == IsEv("printself") /\ LET head == SubSeq(S, 1, IF E.n < Len(S) THEN E.n ELSE Len(S)) IN          \* "%s" with the target itself as argument
+             E.r = E.n + Len(S) /\ Upd(head \o S)
 RemInt == IsEv("remint") /\ Fails({"ClassError", "TypeError", "ValueError"})     \* an argument that is no string: refused like in concat / mem
 ResizeHuge == IsEv("resizehuge") /\ Fails({"OutOfMemoryError"})          \* more than can be had: refused, the String stays
 PrintAt == IsEv("printat") /\ E.r = E.n + Len(E.arg) /\ Upd(WriteAt(S, E.n, E.arg))     \* returns the position after the text
@@ -65,7 +67,7 @@ PrintPct == IsEv("printpct") /\ LET txt == E.arg \o <<37>> \o E.arg \o <<124>> I
 Cmp == IsEv("cmp") /\ E.r = Sign(StrCmp(S, str[E.p])) /\ E.n = (IF S = str[E.p] THEN 1 ELSE 0) /\ Upd(S)
 Del == IsEv("del") /\ Step(Without(str, E.o))
 
-Next == Reset \/ End \/ New \/ Copy \/ Assign \/ AssignO \/ Concat \/ ConcatO \/ RemOk \/ RemFail \/ Mem \/ RemOOk \/ RemOFail \/ MemO \/ ConcatIn \/ AssignIn \/ Resize \/ RemInt \/ ResizeHuge \/ PrintAt \/ PrintPct \/ Cmp \/ Del
+Next == Reset \/ End \/ New \/ Copy \/ Assign \/ AssignO \/ Concat \/ ConcatO \/ RemOk \/ RemFail \/ Mem \/ RemOOk \/ RemOFail \/ MemO \/ ConcatIn \/ AssignIn \/ Resize \/ RemInt \/ ResizeHuge \/ PrintAt \/ PrintSelf \/ PrintPct \/ Cmp \/ Del
 Spec == Init /\ [][Next]_vars
 Accepted == LET d == TLCGet("stats").diameter IN
             /\ PrintT(<<"TRACE_MATCHED", d - 1, Len(T)>>)
